@@ -385,6 +385,7 @@ func (e *Engine) registerIntrinsics() {
 	registerK8sIntrinsics(e)
 	registerNatives(e)
 	registerCEL(e)
+	registerAdmission(e)
 }
 
 func sameRef(a, b value) bool {
